@@ -114,6 +114,7 @@ def run(tier, seed, replay=None):
     r.cov["trusted_base"] = ["coqc 8.16.1 kernel + vm_compute", "python generator/renderer props/c18.py",
                              "harness c18.rs (abstraction: FinalizeReport -> canonical line)", "blake3 crate"]
     ok = r.proof_phase(THEOREMS)
+    r.tables_phase("Bus")
     cases = []
     if replay:
         d = json.load(open(replay))
